@@ -12,8 +12,8 @@ def c09(tier):
     """Message structures against their CDDL: arity sweep at the top, every CBOR kind in every
     slot, one nested structure (quick) / two (thorough), headers kept shallow (C08 explores them)."""
     if tier == "quick":
-        pol = dict(max_array=6, max_nested_array=4, max_map=1, max_text=1, max_depth=6,
-                   max_total_entries=1, max_total_items=10)
+        pol = dict(max_array=6, max_nested_array=4, max_map=1, max_text=1, max_depth=5,
+                   max_total_entries=1, max_total_items=9)
     else:
         pol = dict(max_array=7, max_nested_array=4, max_map=2, max_text=2, max_depth=7,
                    max_total_entries=2, max_total_items=14)
@@ -58,7 +58,7 @@ def c12_decode(tier):
         m3 = dict(max_array=1, max_map=3, max_text=1, max_depth=2, max_total_entries=3, max_total_items=1)
         nest = dict(max_array=4, max_nested_array=3, max_map=2, max_text=1, max_depth=6, max_total_entries=2,
                     max_total_items=7, root_kinds=["Array"], root_lens=[3, 4], map_lens=[0, 2],
-                    map_value_kinds=["Null", "Integer", "Bytes", "Array"])
+                    map_key_kinds=["Integer", "Text"], map_value_kinds=["Null", "Bytes", "Array"])
     else:
         m2 = dict(max_array=3, max_map=3, max_text=2, max_depth=3, max_total_entries=3, max_total_items=3)
         m3 = dict(max_array=2, max_map=4, max_text=1, max_depth=3, max_total_entries=4, max_total_items=2)
@@ -70,8 +70,10 @@ def c12_decode(tier):
               map_lens=[3], map_value_kinds=["Bytes", "Integer"])
     return [_dj("C12", "Header", m2, k), _dj("C12", "Header", d3, k, ":three"), _dj("C12", "ClaimsSet", d3, k, ":three"),
             _dj("C12", "ClaimsSet", m2, k), _dj("C12", "CoseKey", m3, k),
-            _dj("C12", "CoseSign1", nest, k, ":nested"), _dj("C12", "CoseSign", nest, k, ":nested"),
-            _dj("C12", "CoseEncrypt", nest, k, ":nested"), _dj("C12", "CoseSignature", nest, k, ":nested")]
+            _dj("C12", "CoseSign", dict(nest, root_lens=[4]), k, ":nested"),
+            _dj("C12", "CoseEncrypt", dict(nest, root_lens=[4]), k, ":nested"),
+            _dj("C12", "CoseSignature", dict(nest, root_lens=[3]), k, ":nested")] + \
+        ([_dj("C12", "CoseSign1", dict(nest, root_lens=[4]), k, ":nested")] if tier != "quick" else [])
 
 
 def c15(tier):
@@ -144,7 +146,7 @@ def c05(tier):
 
 def c06(tier):
     steps = 3 if tier == "quick" else 4
-    return [("jobs_struct", "history_job", dict(prop="C06", tname=t, steps=steps))
+    return [("jobs_struct", "history_job", dict(prop="C06", tname=t, steps=steps, palette=(0, 3) if tier == "quick" else (0, 1, 2, 3)))
             for t in ("CoseSign1", "CoseSign", "CoseMac0", "CoseMac", "CoseEncrypt0", "CoseEncrypt", "CoseRecipient")]
 
 
@@ -160,8 +162,10 @@ def _rt_pol(tier, t, entries=None):
         # two entries only where the type itself is a map (order / duplicate interactions live
         # there); carriers get one entry in total
         e = entries if entries is not None else (2 if t in MAPS else 1)
+        if t == "CoseKdfContext":
+            e = 0           # its only map is the protected header of SuppPubInfo (covered by that type)
         return dict(max_array=top, max_nested_array=3, max_map=e, max_text=1, max_depth=6, max_total_entries=e,
-                    max_total_items={"CoseKdfContext": 13, "CoseKeySet": 3}.get(t, top + 4))
+                    max_total_items={"CoseKdfContext": 13, "CoseKeySet": 3, "Header": 4}.get(t, top + 4))
     return dict(max_array=top, max_nested_array=4, max_map=3, max_text=2, max_depth=5, max_total_entries=3,
                 max_total_items={"CoseKdfContext": 14}.get(t, top + 8))
 
